@@ -58,6 +58,26 @@ static void pp_ini_file_parameter_free (PIniParameter *param);
 static PIniSection * pp_ini_file_section_new (const pchar *name);
 static void pp_ini_file_section_free (PIniSection *section);
 static pchar * pp_ini_file_find_parameter (const PIniFile *file, const pchar *section, const pchar *key);
+static pboolean pp_ini_file_list_add (PList **list, ppointer data, pboolean to_front);
+
+static pboolean
+pp_ini_file_list_add (PList **list, ppointer data, pboolean to_front)
+{
+	PList *new_list;
+
+	if (P_UNLIKELY (data == NULL))
+		return FALSE;
+
+	new_list = to_front ? p_list_prepend (*list, data) : p_list_append (*list, data);
+
+	/* Both calls return the unchanged list when the node allocation fails */
+	if (P_UNLIKELY (new_list == NULL ||
+			(to_front ? new_list->data : p_list_last (new_list)->data) != data))
+		return FALSE;
+
+	*list = new_list;
+	return TRUE;
+}
 
 static PIniParameter *
 pp_ini_file_parameter_new (const pchar	*name,
@@ -253,10 +273,9 @@ p_ini_file_parse (PIniFile	*file,
 				p_free (tmp_str);
 
 				if (section != NULL) {
-					if (section->keys == NULL)
+					if (section->keys == NULL ||
+					    pp_ini_file_list_add (&file->sections, section, TRUE) == FALSE)
 						pp_ini_file_section_free (section);
-					else
-						file->sections = p_list_prepend (file->sections, section);
 				}
 
 				section = pp_ini_file_section_new (key);
@@ -284,8 +303,9 @@ p_ini_file_parse (PIniFile	*file,
 					if (strcmp (value, "\"\"") == 0 || (strcmp (value, "''") == 0))
 						value[0] = '\0';
 
-					if (section != NULL && (param = pp_ini_file_parameter_new (key, value)) != NULL)
-						section->keys = p_list_prepend (section->keys, param);
+					if (section != NULL && (param = pp_ini_file_parameter_new (key, value)) != NULL &&
+					    pp_ini_file_list_add (&section->keys, param, TRUE) == FALSE)
+						pp_ini_file_parameter_free (param);
 				}
 			}
 		}
@@ -295,10 +315,9 @@ p_ini_file_parse (PIniFile	*file,
 	}
 
 	if (section != NULL) {
-		if (section->keys == NULL)
+		if (section->keys == NULL ||
+		    pp_ini_file_list_add (&file->sections, section, FALSE) == FALSE)
 			pp_ini_file_section_free (section);
-		else
-			file->sections = p_list_append (file->sections, section);
 	}
 
 	if (P_UNLIKELY (fclose (in_file) != 0))
@@ -323,6 +342,7 @@ p_ini_file_sections (const PIniFile *file)
 {
 	PList	*ret;
 	PList	*sec;
+	pchar	*str;
 
 	if (P_UNLIKELY (file == NULL || file->is_parsed == FALSE))
 		return NULL;
@@ -330,7 +350,8 @@ p_ini_file_sections (const PIniFile *file)
 	ret = NULL;
 
 	for (sec = file->sections; sec != NULL; sec = sec->next)
-		ret = p_list_prepend (ret, p_strdup (((PIniSection *) sec->data)->name));
+		if (P_UNLIKELY (pp_ini_file_list_add (&ret, (str = p_strdup (((PIniSection *) sec->data)->name)), TRUE) == FALSE))
+			p_free (str);
 
 	return ret;
 }
@@ -341,6 +362,7 @@ p_ini_file_keys (const PIniFile	*file,
 {
 	PList	*ret;
 	PList	*item;
+	pchar	*str;
 
 	if (P_UNLIKELY (file == NULL || file->is_parsed == FALSE || section == NULL))
 		return NULL;
@@ -355,7 +377,8 @@ p_ini_file_keys (const PIniFile	*file,
 		return NULL;
 
 	for (item = ((PIniSection *) item->data)->keys; item != NULL; item = item->next)
-		ret = p_list_prepend (ret, p_strdup (((PIniParameter *) item->data)->name));
+		if (P_UNLIKELY (pp_ini_file_list_add (&ret, (str = p_strdup (((PIniParameter *) item->data)->name)), TRUE) == FALSE))
+			p_free (str);
 
 	return ret;
 }
@@ -467,6 +490,7 @@ p_ini_file_parameter_list (const PIniFile	*file,
 {
 	PList		*ret = NULL;
 	pchar		*val;
+	pchar		*item;
 	const pchar	*str;
 	pchar		buf[P_INI_FILE_MAX_LINE + 1];
 	psize		len;
@@ -493,8 +517,9 @@ p_ini_file_parameter_list (const PIniFile	*file,
 		else {
 			buf[buf_cnt] = '\0';
 
-			if (buf_cnt > 0)
-				ret = p_list_append (ret, p_strdup (buf));
+			if (buf_cnt > 0 &&
+			    P_UNLIKELY (pp_ini_file_list_add (&ret, (item = p_strdup (buf)), FALSE) == FALSE))
+				p_free (item);
 
 			buf_cnt = 0;
 		}
@@ -504,7 +529,9 @@ p_ini_file_parameter_list (const PIniFile	*file,
 
 	if (buf_cnt > 0) {
 		buf[buf_cnt] = '\0';
-		ret = p_list_append (ret, p_strdup (buf));
+
+		if (P_UNLIKELY (pp_ini_file_list_add (&ret, (item = p_strdup (buf)), FALSE) == FALSE))
+			p_free (item);
 	}
 
 	p_free (val);
